@@ -44,3 +44,12 @@ func (svr *Server) VerifSubscribers(topic string) (int, error) {
 	err := svr.topicsMgr.Subscribers([]byte(topic), 2, &subs, &qoss)
 	return len(subs), err
 }
+
+// VerifSessions reports how many sessions the server's session store holds,
+// so that the harness can see sessions that outlive a clean connection.
+func (svr *Server) VerifSessions() (int, error) {
+	if err := svr.checkConfiguration(); err != nil {
+		return 0, err
+	}
+	return svr.sessMgr.Count(), nil
+}
